@@ -167,9 +167,46 @@ pub fn run(ctx: &Ctx) -> i32 {
         acc
     }).reduce(Acc::new, Acc::merge);
     let acc = acc.merge(acc3);
-    let evals = acc.get("joins") + acc.get("mixed_joins");
+    // forged / damaged share assertions (as a decoder would hand them over): an 'sskrShare' object that is a tagged byte string of every length
+    // 0..=48, an untagged byte string, a text, an elided object - alone, and next to a genuine quorum. Never a panic, never another envelope.
+    let mut acc4 = Acc::new();
+    {
+        let spec = SSKRSpec::new(1, vec![SSKRGroupSpec::new(2, 3).unwrap()]).unwrap();
+        let e = bind::build(&origs[1], 0);
+        let enc = e.encrypt_subject_opt(&key, Some(bind::nonce0())).unwrap();
+        let want = bind::observe(&e.subject());
+        let mut rng = SeededRandomNumberGenerator::new([77, 2, 3, 4]);
+        let genuine: Vec<Envelope> = enc.sskr_split_using(&spec, &key, &mut rng).unwrap().into_iter().flatten().collect();
+        let mut forged: Vec<(String, Envelope)> = vec![];
+        for n in 0..=48usize { forged.push((format!("tagged-bytes-{n}"), enc.add_assertion(known_values::SSKR_SHARE, CBOR::to_tagged_value(bc_components::tags::TAG_SSKR_SHARE, CBOR::to_byte_string(vec![0x11u8; n]))))) }
+        forged.push(("untagged-bytes".into(), enc.add_assertion(known_values::SSKR_SHARE, CBOR::to_byte_string(vec![1u8; 37]))));
+        forged.push(("text".into(), enc.add_assertion(known_values::SSKR_SHARE, "share")));
+        forged.push(("elided-object".into(), { let a = Envelope::new_assertion(known_values::SSKR_SHARE, "share"); let t = bind::dset(&[bind::dg(&a.as_object().unwrap())]); enc.add_assertion_envelope(a.elide_removing_set(&t)).unwrap() }));
+        forged.push(("wrong-tag".into(), enc.add_assertion(known_values::SSKR_SHARE, CBOR::to_tagged_value(999, CBOR::to_byte_string(vec![1u8; 37])))));
+        // truncated and extended copies of a genuine share
+        if let Ok(obj) = genuine[0].object_for_predicate(known_values::SSKR_SHARE) { if let Some(c) = obj.as_leaf() { if let Ok((_, inner)) = c.clone().try_into_tagged_value() { if let Ok(b) = inner.try_into_byte_string() {
+            for cut in [1usize, 2, 4, 5, 6, b.len() - 1] { forged.push((format!("genuine-truncated-to-{cut}"), enc.add_assertion(known_values::SSKR_SHARE, CBOR::to_tagged_value(bc_components::tags::TAG_SSKR_SHARE, CBOR::to_byte_string(b[..cut].to_vec()))))) }
+            let mut ext = b.to_vec(); ext.push(0); forged.push(("genuine-extended-by-1".into(), enc.add_assertion(known_values::SSKR_SHARE, CBOR::to_tagged_value(bc_components::tags::TAG_SSKR_SHARE, CBOR::to_byte_string(ext)))));
+        } } } }
+        for (fname, f) in &forged {
+            // through the decoder as well: what a receiver actually holds
+            let fd = Envelope::try_from_cbor_data(f.to_cbor_data()).unwrap_or_else(|_| f.clone());
+            let sets: Vec<(&str, Vec<&Envelope>)> = vec![("alone", vec![&fd]), ("twice", vec![&fd, &fd]), ("before-quorum", vec![&fd, &genuine[0], &genuine[1]]), ("after-quorum", vec![&genuine[0], &genuine[1], &fd]), ("with-one-genuine", vec![&genuine[2], &fd])];
+            for (sn, subset) in sets {
+                acc4.inc("forged_share_joins");
+                let cid = || format!("forged/{fname}/{sn}");
+                match catch(|| Envelope::sskr_join(&subset)) {
+                    Err(p) => acc4.viol(format!("C11|join|panic|{}", p.site), format!("sskr_join panicked on a damaged share assertion: {}", p.msg), cid(), json!({"forged_share": fname, "set": sn, "envelope": hex::encode(fd.to_cbor_data())})),
+                    Ok(Ok(r)) => if bind::observe(&r) != want { acc4.viol("C11|forged|returns-other", "join returned something else than the original decrypted subject", cid(), json!({"forged_share": fname})) } else { acc4.inc("forged_share_joins_recovered") },
+                    Ok(Err(_)) => acc4.inc("forged_share_joins_refused"),
+                }
+            }
+        }
+    }
+    let acc = acc.merge(acc4);
+    let evals = acc.get("joins") + acc.get("mixed_joins") + acc.get("forged_share_joins");
     let cov = json!({"evaluations": evals,
-        "rule": "every policy (g groups, group threshold, per-group t-of-n) within the bounds x EVERY subset of the generated share envelopes (generated order and reversed) judged by the policy model; plus unions of subsets from two different splits (different and equal identifiers); plus 11 policies at the limits (16 members, 16 groups) with a fixed menu of subsets (all, all but one, first / last minimal quorums in both orders, each less one share, after filler); distinct non-trivial = joins that recovered the original",
+        "rule": "every policy (g groups, group threshold, per-group t-of-n) within the bounds x EVERY subset of the generated share envelopes (generated order and reversed) judged by the policy model; plus unions of subsets from two different splits (different and equal identifiers); plus damaged share assertions (tagged byte strings of every length 0..48, truncated / extended genuine shares, wrong types) alone and next to a genuine quorum: no panic, no other envelope; plus 11 policies at the limits (16 members, 16 groups) with a fixed menu of subsets (all, all but one, first / last minimal quorums in both orders, each less one share, after filler); distinct non-trivial = joins that recovered the original",
         "exhaustive": true, "bounds": {"groups_max": gmax, "members_max": nmax, "policies": pols.len(), "envelopes": 3}});
     finish(ctx, acc, "exploration", cov, vec!["share generation uses seeded generators through sskr_split_using".into(), "for mixed splits a refusal or the first envelope's original is accepted; which one is not specified".into()])
 }
